@@ -147,6 +147,10 @@ def units(tier):
     for o in ('map', 'filter') if tier == 'quick' else OPS:
         for d in SURFACE:
             out.append({'fam': 'api', 'op': o, 'handler': 'none', 'down': d, 'L': 3 if tier == 'quick' else 4})
+    for o in ('map', 'filter', 'scan'):
+        for d in ('count', 'last', 'to_list'):
+            out.append({'fam': 'api', 'op': o, 'handler': 'mapnone', 'down': d, 'L': 4 if tier == 'quick' else 5})
+            out.append({'fam': 'raw', 'op': o, 'handler': 'mapnone', 'down': 'last', 'depth': 5 if tier == 'quick' else 6})
     out.append({'fam': 'routers', 'L': 4 if tier == 'quick' else 5})
     out.append({'fam': 'late', 'L': 4 if tier == 'quick' else 6})
     for o in OPS:
@@ -237,6 +241,8 @@ def build_pipeline(case, probe, states=None):
         ops.append(rs.error.ignore())
     elif h == 'map':
         ops.append(rs.error.map(_mapped))
+    elif h == 'mapnone':
+        ops.append(rs.error.map(lambda e: None))         # None is a mapped value like any other: it takes the place of the error
     elif h == 'router':
         errors, route = rs.error.create_error_router()
         errors.subscribe(on_next=lambda e: dead['items'].append(_item_of(e) if isinstance(e, Exception) else repr(e)),
@@ -346,8 +352,8 @@ def run_through(case, acc):
             if h == 'none':
                 broke = True
                 break
-            if h == 'map':
-                exp.extend(m.item(_mapped(_exc_for(x))))
+            if h in ('map', 'mapnone'):
+                exp.extend(m.item(_mapped(_exc_for(x)) if h == 'map' else None))
             continue
         for y in om.item(x):
             exp.extend(m.item(y))
@@ -539,8 +545,8 @@ def run_case(case, acc):
         if i in fail:
             if h == 'none':
                 break
-            if h == 'map':
-                exp.extend(downs[g].item(_mapped(_exc_for(x))))
+            if h in ('map', 'mapnone'):
+                exp.extend(downs[g].item(_mapped(_exc_for(x)) if h == 'map' else None))
             continue
         for y in models[g].item(x):
             exp.extend(downs[g].item(y))
@@ -613,7 +619,7 @@ def run_raw(case, acc):
 
         def item(self, x):
             if _fails(x):
-                return self.d.item(_mapped(_exc_for(x))) if h == 'map' else []
+                return self.d.item(_mapped(_exc_for(x)) if h == 'map' else None) if h in ('map', 'mapnone') else []
             o = []
             for y in self.m.item(x):
                 o.extend(self.d.item(y))
